@@ -1,0 +1,13 @@
+//go:build !verif
+// +build !verif
+
+// Package verifhook provides named hook points for runtime verification
+// harnesses. Without the "verif" build tag every function is an empty stub
+// that the compiler inlines away.
+package verifhook
+
+// Enabled reports whether hooks are compiled in.
+const Enabled = false
+
+// Point marks a named point in the code. It does nothing in normal builds.
+func Point(name string, args ...interface{}) {}
